@@ -263,6 +263,29 @@ def run_case(ctx, name, params):
                 return
             judge_truncate(ctx, p2, s2, k, res, "direct")
             ctx.count("cases")
+        # second generation on the same objects: some members are moved IN PLACE onto another member's design (what clipping to a
+        # bound does to swarm particles), the population is ranked and truncated again -- a repeated design must still go once
+        if len(pop) >= 2:
+            movers = r.sample(pop, max(1, len(pop) // 4))
+            for mv in movers:
+                tgt = r.choice(pop)
+                if tgt is mv:
+                    continue
+                for i_ in range(len(mv.vector)):
+                    mv.vector[i_] = tgt.vector[i_]
+                mv.costs_signed = list(tgt.costs_signed)
+                mv.costs = list(tgt.costs)
+            sel.fast_nondominated_sorting(pop)
+            snap2 = snapshot(pop)
+            for k in sorted({r.randint(1, 2 * size), size}):
+                try:
+                    res = operators.nondominated_truncate(list(pop), k)
+                except Exception as e:
+                    ctx.violation("truncate/exception", "nondominated_truncate raised %r" % e, {"k": k})
+                    return
+                judge_truncate(ctx, pop, snap2, k, res, "after_in_place_moves")
+                ctx.count("truncate_after_in_place_moves")
+                ctx.count("cases")
         ctx.sample({"size": size, "m": m, "n": n, "first": [{"vector": s[0], "costs": s[1], "front": s[2], "cd": s[3]}
                                                               for s in snap[:3]]}, "truncate")
     elif name == "tournament":
